@@ -176,8 +176,11 @@ def run_tcp_one(it):
             if step == "enable":
                 proto.enable()
                 s.advance(0.3)
-            elif step == "listen_peer":          # client side: a peer starts listening
-                peer["lst"] = net.listen_raw(5002)
+            elif step == "enable_fast":      # no pause: the connect / server thread is still starting up
+                proto.enable()
+            elif step == "listen_peer":          # client side: a peer starts listening (no-op for the server side)
+                if not passive:
+                    peer["lst"] = net.listen_raw(5002)
             elif step == "connect":
                 if passive:
                     peer["ep"] = net.dial(5002)
@@ -187,10 +190,14 @@ def run_tcp_one(it):
                 else:
                     if peer["lst"] is None:
                         peer["lst"] = net.listen_raw(5002)
-                    if not wait(lambda: bool(peer["lst"]), 30):
+                    def live():
+                        return [e for e in peer["lst"] if not e.fin and not e.closed]
+
+                    if not wait(lambda: bool(live()), 30):
                         fail("active-endpoint-did-not-connect")
                         return
-                    peer["ep"] = peer["lst"].pop(0)
+                    peer["ep"] = live()[-1]
+                    del peer["lst"][:]
                 if not wait(lambda: proto.connection_state.current.name != "NOT_CONNECTED", 30):
                     fail("connection-not-reported")
                     return
@@ -242,7 +249,10 @@ def run_tcp_one(it):
 
     s = simrt.run(main, seed=it["seed"], policy=it["policy"], switch_prob=0.3, max_vtime=1e5, wall_timeout=120,
                   line_funcs=[tc.TcpConnection._start_receiver, tc.TcpConnection.disconnect, tsc.TcpServerConnection.disable,
-                              tcc.TcpClientConnection.disable], line_cost=1e-3, pct_depth=3, pct_horizon=400)
+                              tcc.TcpClientConnection.disable, tcc.TcpClientConnection._TcpClientConnection__connect_thread,
+                              tcc.TcpClientConnection._TcpClientConnection__connect, tcc.TcpClientConnection._TcpClientConnection__idle,
+                              tsc.TcpServerConnection._TcpServerConnection__server_thread],
+                  line_cost=1e-3, pct_depth=3, pct_horizon=400)
     simsock.set_net(None)
     rec["outcome"] = s.outcome
     if s.outcome != "done":
@@ -263,6 +273,9 @@ TCP_SCRIPTS = {
     "loss-partial-reconnect": ["enable", "connect", "select", "partial", "peer_close", "wait", "connect", "select", "disable"],
     "disable-enable-cycle": ["enable", "connect", "select", "disable", "enable", "connect", "select", "disable"],
     "idle-disable-enable": ["enable", "disable", "enable", "connect", "select", "disable"],
+    "enable-disable-at-once": ["enable_fast", "disable"],
+    "enable-disable-at-once-peer-listening": ["listen_peer", "enable_fast", "disable"],
+    "enable-disable-at-once-then-again": ["listen_peer", "enable_fast", "disable", "enable", "connect", "select", "disable"],
 }
 
 
